@@ -589,6 +589,17 @@ class Lib:
                 if any(x is not y for x, y in zip(a2, args)) or any(k2[kk] is not kwargs[kk] for kk in kwargs):
                     if deep_concrete([x for x in a2 if not callable(x)]) and deep_concrete({kk: x for kk, x in k2.items() if not callable(x)}):
                         args, kwargs = a2, k2
+            if str(getattr(fn, "__module__", "") or "").split(".")[0] == "numpy" and any(type(x).__name__ == "NDArr" for x in list(args) + list(kwargs.values())):
+                # an unmodelled numpy function on model arrays that hold nothing symbolic: run it on the numbers
+                def nat_arr(v):
+                    if type(v).__name__ == "NDArr":
+                        r = self.numpy.try_native(I, v)
+                        return v if r is None else r
+                    return v
+                a3 = [nat_arr(x) for x in args]
+                k3 = {kk: nat_arr(x) for kk, x in kwargs.items()}
+                if deep_concrete(a3) and deep_concrete(k3):
+                    args, kwargs = a3, k3
             if deep_concrete(args) and deep_concrete(kwargs) and not S.is_repo_function(fn):
                 I.ctx.note_assumption(A_NATIVE + getattr(fn, "__qualname__", repr(fn)))
                 try:
@@ -1028,14 +1039,29 @@ class Lib:
         if len(a) == 1 and isinstance(a[0], (SSeq, SRange)) and self.symbolic_comprehension_source(I, a[0]) and key is None:
             from .ndarray import idxseq
             seq = idxseq(I, a[0], n)       # elements compared through their integer value (periods: __index__ == serial)
-            if seq is None or seq.affine is None:
-                raise Unsupported("min/max over a non-affine sequence of symbolic length")
-            a0, step = seq.affine
+            if seq is None:
+                raise Unsupported("min/max over a sequence of symbolic length that has no integer reading")
             ln = to_z3(seq.length)
             if not I.ctx.branch(ln > 0):
                 if "default" in k:
                     return k["default"]
                 I.raise_exc(ValueError, "min()/max() arg is an empty sequence")
+            if seq.affine is None:
+                # not affine: the ends are still the extremes when the sequence is PROVABLY monotone (one validity query
+                # per direction over a fresh position j: 0 <= j < len-1  =>  e(j) <= e(j+1)); equal elements are equal
+                # in value, so which of them min()/max() returns does not matter for integers and periods
+                j = z3.Int(I.ctx.fresh_name("k!mono"))
+                inside = z3.And(j >= 0, j < ln - 1)
+                ej, ej1 = seq.at(j), seq.at(j + 1)
+                if I.ctx.entails(z3.Implies(inside, ej <= ej1)):
+                    first_is_min = True
+                elif I.ctx.entails(z3.Implies(inside, ej >= ej1)):
+                    first_is_min = False
+                else:
+                    raise Unsupported("min/max over a sequence of symbolic length that is neither affine nor provably monotone")
+                pick_first = first_is_min != is_max
+                return a[0].getter(SV(z3.IntVal(0)) if pick_first else SV(z3.simplify(ln - 1)))
+            a0, step = seq.affine
             first_is_min = step > 0
             pick_first = first_is_min != is_max
             src = a[0]
@@ -1466,8 +1492,24 @@ class Lib:
                     raise Unsupported("custom __deepcopy__")
                 new = Obj(v.cls)
                 memo[id(v)] = new
-                for kk, vv in v.attrs.items():
-                    new.attrs[kk] = dc(vv)
+                gs = I.lookup_class_attr(v.cls, "__getstate__")
+                ss = I.lookup_class_attr(v.cls, "__setstate__")
+                gs = gs if gs is not _MISSING and S.is_repo_function(gs) else None
+                ss = ss if ss is not _MISSING and S.is_repo_function(ss) else None
+                if gs is not None or ss is not None:
+                    # copy.deepcopy goes through __reduce_ex__: the state is what __getstate__ returns (the instance
+                    # dictionary by default), deep-copied, and handed to __setstate__ (or merged into the dictionary)
+                    state = I.call(Bound(gs, v), [], {}, n) if gs is not None else dict(v.attrs)
+                    state = dc(state)
+                    if ss is not None:
+                        I.call(Bound(ss, new), [state], {}, n)
+                    elif isinstance(state, dict):
+                        new.attrs.update(state)
+                    else:
+                        raise Unsupported("deepcopy: __getstate__ returning something other than a dict without __setstate__")
+                else:
+                    for kk, vv in v.attrs.items():
+                        new.attrs[kk] = dc(vv)
                 if v.store is not None:
                     for kk, vv in v.store.items():
                         new.store[kk] = dc(vv)
